@@ -262,14 +262,40 @@ func b2i(b bool) string {
 	return "0"
 }
 
+var upTimeout = 30 * time.Second
+var hangs int
+
+// after three uploads that never returned the differential part stops issuing operations (each
+// hung Upload is a busy loop); the monitors have reported the failing input by then
+func tooManyHangs() bool { return hangs >= 3 }
+
 func (e *env) up(key string, d dataSpec, imm bool) error {
-	err := e.b.Upload(e.ctx, key, d.b, opts(imm))
+	if tooManyHangs() {
+		return errors.New("skipped")
+	}
+	o := opts(imm)
+	ch := make(chan error, 1)
+	go func() { ch <- e.b.Upload(e.ctx, key, d.b, o) }()
+	var err error
+	select {
+	case err = <-ch:
+	case <-time.After(upTimeout):
+		// an Upload that does not return (the pre-fix compareFile on empty data): keep going
+		upTimeout = time.Second
+		hangs++
+		emit("up", hx([]byte(key))+"|"+d.spec+"|"+b2i(imm), "hang|"+e.tree())
+		e.nops++
+		return errors.New("hang")
+	}
 	emit("up", hx([]byte(key))+"|"+d.spec+"|"+b2i(imm), class(err)+"|"+e.tree())
 	e.nops++
 	return err
 }
 
 func (e *env) fetch(key string) {
+	if tooManyHangs() {
+		return
+	}
 	b, err := e.b.Fetch(e.ctx, key)
 	r := class(err)
 	if err == nil {
@@ -280,6 +306,9 @@ func (e *env) fetch(key string) {
 }
 
 func (e *env) discard(key string) {
+	if tooManyHangs() {
+		return
+	}
 	err := e.b.Discard(e.ctx, key)
 	emit("discard", hx([]byte(key)), class(err)+"|"+e.tree())
 	e.nops++
@@ -565,7 +594,7 @@ func withTimeout(d time.Duration, f func() string) (string, bool) {
 }
 
 // Upload of empty immutable contents twice returns (the pre-fix compareFile spun forever)
-func monEmptyTwice() {
+func monEmptyTwice() bool {
 	e := newEnv(true)
 	res, ok := withTimeout(10*time.Second, func() string {
 		im := &ctlog.UploadOptions{Immutable: true}
@@ -595,10 +624,11 @@ func monEmptyTwice() {
 	if !ok {
 		// the goroutine is still spinning; do not touch its directory
 		emit("mon_empty_twice", "a/empty", "FAILS:C13-empty-immutable-reupload never returned")
-		return
+		return false
 	}
 	e.close()
 	emit("mon_empty_twice", "a/empty", res)
+	return true
 }
 
 // immutable rules for every content shape: same = ok, different = mismatch and unchanged
@@ -625,7 +655,7 @@ func monImmutable(r *rand.Rand, rounds int) {
 			}
 			variants = append(variants, orig[:n-1], orig[1:])
 		}
-		res, ok := withTimeout(60*time.Second, func() string {
+		res, ok := withTimeout(20*time.Second, func() string {
 			if err := e.b.Upload(e.ctx, key, orig, im); err != nil {
 				return "FAILS:first-upload:" + class(err)
 			}
@@ -869,6 +899,11 @@ func helper(root string, script string) {
 	emit("reset", b2i(capImm)+"|"+b2i(mk), "ok")
 	for i, o := range ops {
 		marker(fmt.Sprintf("begin %d", i))
+		wd := time.AfterFunc(20*time.Second, func() {
+			marker(fmt.Sprintf("hang %d", i))
+			out.Flush()
+			os.Exit(3)
+		})
 		var err error
 		switch o.kind {
 		case "up":
@@ -882,6 +917,7 @@ func helper(root string, script string) {
 		case "discard":
 			err = e.b.Discard(e.ctx, o.key)
 		}
+		wd.Stop()
 		marker(fmt.Sprintf("end %d", i))
 		switch o.kind {
 		case "up":
@@ -1033,9 +1069,11 @@ func main() {
 		return
 	}
 	r := rand.New(rand.NewSource(*seed))
+	if !monEmptyTwice() {
+		upTimeout = time.Second
+	}
 	scripted()
 	generated(r, *n)
-	monEmptyTwice()
 	rounds := 16
 	writes := 150
 	if *big {
